@@ -285,3 +285,140 @@ pub fn kex_party(
     let s_a = sm3_cat(&[&[0x03], &yv, &inner]);
     Some(KexResult { k, s_b, s_a, v })
 }
+
+// ---- roots of the curve cubic: all x with x^3 + a x + b = y^2 for a given y ------------------------------
+// (Fp[x] with little-endian coefficient vectors; only what a degree-3 root search needs)
+
+fn poly_trim(mut v: Vec<BigUint>) -> Vec<BigUint> {
+    while v.last().map(|c| c.is_zero()).unwrap_or(false) {
+        v.pop();
+    }
+    v
+}
+fn poly_rem(a: &[BigUint], m: &[BigUint], p: &BigUint) -> Vec<BigUint> {
+    // m must be non-zero; returns a mod m
+    let mut r = poly_trim(a.to_vec());
+    let dm = m.len() - 1;
+    let lead_inv = m[dm].modpow(&(p - 2u32), p);
+    while r.len() > dm && !r.is_empty() {
+        let dr = r.len() - 1;
+        let q = (&r[dr] * &lead_inv) % p;
+        for i in 0..=dm {
+            let sub = (&q * &m[i]) % p;
+            let idx = dr - dm + i;
+            r[idx] = (&r[idx] + p - sub) % p;
+        }
+        r = poly_trim(r);
+    }
+    r
+}
+fn poly_mulmod(a: &[BigUint], b: &[BigUint], m: &[BigUint], p: &BigUint) -> Vec<BigUint> {
+    if a.is_empty() || b.is_empty() {
+        return vec![];
+    }
+    let mut out = vec![BigUint::zero(); a.len() + b.len() - 1];
+    for (i, x) in a.iter().enumerate() {
+        for (j, y) in b.iter().enumerate() {
+            out[i + j] = (&out[i + j] + x * y) % p;
+        }
+    }
+    poly_rem(&out, m, p)
+}
+fn poly_powmod(base: &[BigUint], e: &BigUint, m: &[BigUint], p: &BigUint) -> Vec<BigUint> {
+    let mut acc = vec![BigUint::one()];
+    let b = poly_rem(base, m, p);
+    for i in (0..e.bits()).rev() {
+        acc = poly_mulmod(&acc, &acc, m, p);
+        if e.bit(i) {
+            acc = poly_mulmod(&acc, &b, m, p);
+        }
+    }
+    acc
+}
+fn poly_gcd(a: &[BigUint], b: &[BigUint], p: &BigUint) -> Vec<BigUint> {
+    let (mut x, mut y) = (poly_trim(a.to_vec()), poly_trim(b.to_vec()));
+    while !y.is_empty() {
+        let r = poly_rem(&x, &y, p);
+        x = y;
+        y = r;
+    }
+    // monic
+    if let Some(l) = x.last().cloned() {
+        let inv = l.modpow(&(p - 2u32), p);
+        for c in x.iter_mut() {
+            *c = (&*c * &inv) % p;
+        }
+    }
+    x
+}
+fn poly_sub(a: &[BigUint], b: &[BigUint], p: &BigUint) -> Vec<BigUint> {
+    let n = a.len().max(b.len());
+    let z = BigUint::zero();
+    poly_trim((0..n).map(|i| (a.get(i).unwrap_or(&z) + p - b.get(i).unwrap_or(&z)) % p).collect())
+}
+/// all roots in Fp of a polynomial of degree <= 3 (equal-degree splitting on its product of linear factors)
+fn poly_roots(f: &[BigUint], p: &BigUint) -> Vec<BigUint> {
+    let f = poly_trim(f.to_vec());
+    if f.len() <= 1 {
+        return vec![];
+    }
+    // g = gcd(x^p - x, f): the product of the distinct linear factors
+    let x = vec![BigUint::zero(), BigUint::one()];
+    let xp = poly_powmod(&x, p, &f, p);
+    let mut stack = vec![poly_gcd(&f, &poly_sub(&xp, &x, p), p)];
+    let mut roots = Vec::new();
+    let mut delta = 1u32;
+    while let Some(g) = stack.pop() {
+        match g.len() {
+            0 | 1 => {}
+            2 => roots.push((p - &g[0]) % p), // monic x + g0
+            _ => {
+                // split with gcd((x + delta)^((p-1)/2) - 1, g)
+                loop {
+                    let shifted = vec![BigUint::from(delta), BigUint::one()];
+                    delta += 1;
+                    let h = poly_powmod(&shifted, &((p - 1u32) >> 1), &g, p);
+                    let d = poly_gcd(&g, &poly_sub(&h, &[BigUint::one()], p), p);
+                    if d.len() > 1 && d.len() < g.len() {
+                        // g / d by repeated remainder: the cofactor is gcd-free, obtain it as g / d
+                        let mut q = vec![BigUint::zero(); g.len() - d.len() + 1];
+                        let mut r = g.clone();
+                        let dd = d.len() - 1;
+                        while r.len() > dd {
+                            let dr = r.len() - 1;
+                            let c = r[dr].clone();
+                            q[dr - dd] = c.clone();
+                            for i in 0..=dd {
+                                let idx = dr - dd + i;
+                                r[idx] = (&r[idx] + p - (&c * &d[i]) % p) % p;
+                            }
+                            r = poly_trim(r);
+                        }
+                        stack.push(d);
+                        stack.push(poly_trim(q));
+                        break;
+                    }
+                    assert!(delta < 200, "equal-degree splitting does not terminate");
+                }
+            }
+        }
+    }
+    roots.sort();
+    roots
+}
+/// every x in Fp with x^3 + a x + b = rhs (0, 1, 2 or 3 values)
+pub fn xs_for_rhs(rhs: &BigUint) -> Vec<BigUint> {
+    let pr = params();
+    let p = &pr.p;
+    let c = (&pr.b + p - rhs % p) % p;
+    let roots = poly_roots(&[c, pr.a.clone(), BigUint::zero(), BigUint::one()], p);
+    for x in &roots {
+        assert!((x * x * x + &pr.a * x + &pr.b) % p == rhs % p, "root search returned a value that is not a root");
+    }
+    roots
+}
+/// every x in Fp with (x, y) on the SM2 curve (0, 1, 2 or 3 values)
+pub fn xs_for_y(y: &BigUint) -> Vec<BigUint> {
+    let p = &params().p;
+    xs_for_rhs(&((y * y) % p))
+}
